@@ -609,6 +609,8 @@ impl FdtEngine {
             if let Some(lp) = self.last_poll {
                 self.sup_gap = self.sup_gap.max(now.saturating_sub(lp));
             }
+            self.check_supersede(now, o);
+            self.last_poll = Some(now);
         }
         let mut obs = "ok".to_string();
         if let Some(id) = fdt_first {
@@ -636,10 +638,6 @@ impl FdtEngine {
                 obs = format!("ok pop {}", id);
             }
             self.last_tr_id = Some(id);
-        }
-        if polled {
-            self.check_supersede(now, o);
-            self.last_poll = Some(now);
         }
         if fdt_pkt {
             let p = pkt.as_ref().unwrap().clone();
